@@ -30,11 +30,14 @@ Lemma run_reg_app : forall h1 h2 r,
 Proof.
   induction h1 as [|o h1 IH]; intros h2 r.
   - cbn [app run_reg]. destruct (run_reg r h2) as [[rs2 r2] ab2]. reflexivity.
-  - cbn [app]. destruct o as [k|k f|]; cbn [run_reg].
+  - cbn [app]. destruct o as [k|k f| |arms els]; cbn [run_reg].
     + rewrite IH. destruct (run_reg r h1) as [[rs1 r1] ab1]. destruct ab1; [reflexivity|].
       destruct (run_reg r1 h2) as [[rs2 r2] ab2]. reflexivity.
     + destruct (f r) as [v|]; [apply IH|reflexivity].
     + reflexivity.
+    + destruct (case_out r arms els) as [l [w|]]; [|reflexivity].
+      rewrite IH. destruct (run_reg (wr_opt r w) h1) as [[rs1 r1] ab1]. destruct ab1; [reflexivity|].
+      destruct (run_reg r1 h2) as [[rs2 r2] ab2]. rewrite app_assoc. reflexivity.
 Qed.
 
 (* last write wins; registers nobody wrote keep their contents *)
@@ -44,13 +47,19 @@ Lemma regs_after_writes : forall h r k,
 Proof.
   induction h as [|o h IH]; intros r k.
   - reflexivity.
-  - destruct o as [k0|k0 f|]; cbn [run_reg writes].
+  - destruct o as [k0|k0 f| |arms els]; cbn [run_reg writes].
     + specialize (IH r k). destruct (run_reg r h) as [[rs r'] ab]. exact IH.
     + destruct (f r) as [v|]; [|reflexivity].
       rewrite IH. cbn [last_write].
       destruct (last_write k (writes (wr r k0 v) h)); [reflexivity|].
       unfold wr. destruct (String.eqb k k0); reflexivity.
     + reflexivity.
+    + destruct (case_out r arms els) as [l [[[k0 v]|]|]]; cbn [wr_opt]; [ | |reflexivity].
+      * specialize (IH (wr r k0 v) k). destruct (run_reg (wr r k0 v) h) as [[rs r'] ab].
+        cbn [regs_of fst snd] in *. rewrite IH. cbn [last_write].
+        destruct (last_write k (writes (wr r k0 v) h)); [reflexivity|].
+        unfold wr. destruct (String.eqb k k0); reflexivity.
+      * specialize (IH r k). destruct (run_reg r h) as [[rs r'] ab]. exact IH.
 Qed.
 
 (* a read returns the last value written before it, else what the register held at the start *)
@@ -104,12 +113,18 @@ Section Lin.
     rewrite (agree_get st r k H). reflexivity.
   Qed.
 
+  Lemma eval_rd_regs : forall st r cur (e : expr Q),
+    agree st r -> eval (env_rd data (Some st)) cur e = eval (env_regs data r) cur e.
+  Proof.
+    intros st r cur e H.
+    apply (eval_ext Q (env_rd data (Some st)) (env_regs data r)); try reflexivity.
+    intros q n a c. cbn [env_rd env_regs mk_env e_call]. apply call_rd_regs. exact H.
+  Qed.
+
   Lemma arg_rd_regs : forall st r cur (e : expr Q),
     agree st r -> arg (env_rd data (Some st)) cur e = arg (env_regs data r) cur e.
   Proof.
-    intros st r cur e H. unfold arg.
-    rewrite (eval_ext Q (env_rd data (Some st)) (env_regs data r)); try reflexivity.
-    intros q n a c. cbn [env_rd env_regs mk_env e_call]. apply call_rd_regs. exact H.
+    intros st r cur e H. unfold arg. rewrite (eval_rd_regs st r cur e H). reflexivity.
   Qed.
 
   (* SelectExpr's tail against pure_val *)
@@ -150,6 +165,66 @@ Section Lin.
   Lemma is_ok_cast : forall A B (x : res A), is_ok (@cast A B x) = false.
   Proof. intros A B x. destruct x; reflexivity. Qed.
 
+  (* ---------------- SETVAR(k, e), as an item or as a CASE result ---------------- *)
+
+  Lemma set_lin : forall st r cur acc (k e : expr Q) name,
+    agree st r ->
+    match key_at data cur k with
+    | Some ks =>
+        match opt (arg (env_regs data r) cur e) with
+        | Some v => run_set data (Some st) cur acc k e name = (Ok acc, Some (obj_set ks v st))
+        | None => exists o, run_set data (Some st) cur acc k e name = (o, Some st) /\ is_ok o = false
+        end
+    | None => exists o, run_set data (Some st) cur acc k e name = (o, Some st) /\ is_ok o = false
+    end.
+  Proof.
+    intros st r cur acc k e name Hag. unfold run_set.
+    destruct (key_at data cur k) as [ks|] eqn:Hk.
+    - destruct (key_at_some _ _ _ Hk) as [kv [Hkv Hks]].
+      rewrite <- (arg_rd_regs st r cur e Hag). rewrite Hkv. cbn [bind].
+      destruct (arg (env_rd data (Some st)) cur e) as [ev| | |] eqn:Hev; cbn [bind opt cast].
+      + unfold set_var_func, guard. cbn [List.length Nat.eqb bind]. rewrite Hks. cbn [bind map_put].
+        cbn [sel_store]. reflexivity.
+      + exists Err. auto.
+      + exists Panic. auto.
+      + exists OutOfModel. auto.
+    - destruct (key_at_none _ _ Hk) as [Hbad|[kv [Hkv Hbad]]].
+      + destruct (arg (env_pure data) cur k); try discriminate Hbad; cbn [bind cast];
+          eexists; auto.
+      + rewrite Hkv. cbn [bind].
+        destruct (arg (env_rd data (Some st)) cur e) as [ev| | |]; cbn [bind cast];
+          try (eexists; split; reflexivity).
+        unfold set_var_func, guard. cbn [List.length Nat.eqb bind].
+        destruct (key_of kv); try discriminate Hbad; cbn [bind cast]; eexists; auto.
+  Qed.
+
+  (* ---------------- CASE: the branch taken ---------------- *)
+
+  Lemma pick_choose : forall (whens : list (expr Q * branch Q)) els st r cur,
+    agree st r ->
+    match choose r (map (fun w => (guard_at data cur (fst w), act_at data cur (snd w))) whens)
+                 (els_at data cur els) with
+    | (l, None) => is_ok (pick data (Some st) cur whens els) = false
+    | (l, Some a) =>
+        exists ob, pick data (Some st) cur whens els = Ok ob /\ a = els_at data cur ob /\
+                   forall rest, taken whens els (l ++ rest) = (ob, rest)
+    end.
+  Proof.
+    induction whens as [|[c b] ws IH]; intros els st r cur Hag.
+    - cbn [map choose pick]. exists els. split; [reflexivity|]. split; [reflexivity|].
+      intros rest. reflexivity.
+    - cbn [map choose pick fst snd]. unfold guard_at at 1.
+      rewrite <- (eval_rd_regs st r cur c Hag).
+      destruct (eval (env_rd data (Some st)) cur c) as [rc| | |]; cbn [bind opt]; try reflexivity.
+      destruct rc as [[| [|] | | | |]| | | | |]; cbn [opt]; try reflexivity.
+      + exists (Some b). split; [reflexivity|]. split; [reflexivity|]. intros rest. reflexivity.
+      + specialize (IH els st r cur Hag).
+        destruct (choose r (map (fun w => (guard_at data cur (fst w), act_at data cur (snd w))) ws)
+                         (els_at data cur els)) as [l [a|]]; [|exact IH].
+        destruct IH as [ob [Hp [Ha Ht]]]. exists ob. split; [exact Hp|]. split; [exact Ha|].
+        intros rest. cbn [app taken]. apply Ht.
+  Qed.
+
   (* ---------------- one select item ---------------- *)
 
   Lemma item_lin : forall (it : item) st r cur acc,
@@ -162,29 +237,16 @@ Section Lin.
               assemble_row data cur (it :: items) (rs ++ rest) acc =
               assemble_row data cur items rest acc').
   Proof.
-    intros it st r cur acc Hag. destruct it as [k e|k name|e name]; cbn [ops].
+    intros it st r cur acc Hag. destruct it as [k e|k name|e name|whens els name]; cbn [ops].
     - (* SETVAR *)
-      destruct (key_at data cur k) as [ks|] eqn:Hk.
-      + destruct (key_at_some _ _ _ Hk) as [kv [Hkv Hks]].
-        cbn [run_reg]. rewrite <- (arg_rd_regs st r cur e Hag).
-        cbn [run_item]. rewrite Hkv. cbn [bind].
-        destruct (arg (env_rd data (Some st)) cur e) as [ev| | |] eqn:Hev; cbn [bind opt cast].
-        * unfold set_var_func, guard. cbn [List.length Nat.eqb bind]. rewrite Hks. cbn [bind map_put].
-          cbn [sel_store].
+      pose proof (set_lin st r cur acc k e "" Hag) as Hs. cbn [run_item].
+      destruct (key_at data cur k) as [ks|] eqn:Hk; cbn [run_reg].
+      + destruct (opt (arg (env_regs data r) cur e)) as [ev|].
+        * rewrite Hs.
           exists (Ok acc), (obj_set ks ev st). split; [reflexivity|]. split; [apply agree_set; exact Hag|].
           exists acc. split; [reflexivity|]. intros items rest. reflexivity.
-        * exists Err, st. auto.
-        * exists Panic, st. auto.
-        * exists OutOfModel, st. auto.
-      + cbn [run_reg]. cbn [run_item].
-        destruct (key_at_none _ _ Hk) as [Hbad|[kv [Hkv Hbad]]].
-        * destruct (arg (env_pure data) cur k); try discriminate Hbad; cbn [bind cast];
-            eexists _, st; auto.
-        * rewrite Hkv. cbn [bind].
-          destruct (arg (env_rd data (Some st)) cur e) as [ev| | |]; cbn [bind cast];
-            try (eexists _, st; split; [reflexivity|]; split; [exact Hag|reflexivity]).
-          unfold set_var_func, guard. cbn [List.length Nat.eqb bind].
-          destruct (key_of kv); try discriminate Hbad; cbn [bind cast]; eexists _, st; auto.
+        * destruct Hs as [o [-> Ho]]. exists o, st. auto.
+      + destruct Hs as [o [-> Ho]]. exists o, st. auto.
     - (* GETVAR *)
       destruct (key_at data cur k) as [ks|] eqn:Hk.
       + destruct (key_at_some _ _ _ Hk) as [kv [Hkv Hks]].
@@ -200,7 +262,7 @@ Section Lin.
         * rewrite Hkv. cbn [bind]. unfold get_var_func, guard. cbn [List.length Nat.eqb bind].
           destruct (key_of kv); try discriminate Hbad; cbn [bind]; eexists _, st; auto.
     - (* pure item *)
-      cbn [run_item]. rewrite sel_store_pure.
+      cbn [run_item]. unfold run_pure. rewrite sel_store_pure.
       destruct (pure_val data cur e) as [[v|]| | |] eqn:Hp; cbn [run_reg cast].
       + eexists _, st. split; [reflexivity|]. split; [exact Hag|].
         eexists. split; [reflexivity|]. intros items rest. cbn [app assemble_row]. rewrite Hp. reflexivity.
@@ -209,6 +271,41 @@ Section Lin.
       + eexists _, st. auto.
       + eexists _, st. auto.
       + eexists _, st. auto.
+    - (* CASE *)
+      cbn [run_reg run_item]. unfold case_out.
+      pose proof (pick_choose whens els st r cur Hag) as Hp.
+      destruct (choose r (map (fun w => (guard_at data cur (fst w), act_at data cur (snd w))) whens)
+                       (els_at data cur els)) as [l [a|]].
+      + destruct Hp as [ob [Hpick [-> Htk]]]. rewrite Hpick.
+        destruct ob as [[e|k e]|]; cbn [els_at act_at run_branch].
+        * (* a call-free branch *)
+          unfold run_pure. rewrite sel_store_pure.
+          destruct (pure_val data cur e) as [[v|]| | |] eqn:Hpv; cbn [act_out wr_opt cast];
+            try (eexists _, st; auto; fail).
+          -- eexists _, st. split; [reflexivity|]. split; [exact Hag|].
+             eexists. split; [reflexivity|]. intros items rest. rewrite app_nil_r.
+             cbn [assemble_row]. rewrite Htk. cbn [branch_val]. rewrite Hpv. reflexivity.
+          -- eexists _, st. split; [reflexivity|]. split; [exact Hag|].
+             eexists. split; [reflexivity|]. intros items rest. rewrite app_nil_r.
+             cbn [assemble_row]. rewrite Htk. cbn [branch_val]. rewrite Hpv. reflexivity.
+        * (* a SETVAR branch *)
+          pose proof (set_lin st r cur acc k e name Hag) as Hs.
+          destruct (key_at data cur k) as [ks|] eqn:Hk; cbn [act_out].
+          -- destruct (opt (arg (env_regs data r) cur e)) as [ev|]; cbn [wr_opt].
+             ++ rewrite Hs.
+                exists (Ok acc), (obj_set ks ev st). split; [reflexivity|].
+                split; [apply agree_set; exact Hag|].
+                exists acc. split; [reflexivity|]. intros items rest. rewrite app_nil_r.
+                cbn [assemble_row]. rewrite Htk. reflexivity.
+             ++ destruct Hs as [o [-> Ho]]. exists o, st. auto.
+          -- destruct Hs as [o [-> Ho]]. exists o, st. auto.
+        * (* no branch: NULL under the item's name *)
+          cbn [act_out wr_opt].
+          eexists _, st. split; [reflexivity|]. split; [exact Hag|].
+          eexists. split; [reflexivity|]. intros items rest. rewrite app_nil_r.
+          cbn [assemble_row]. rewrite Htk. reflexivity.
+      + destruct (pick data (Some st) cur whens els); [discriminate Hp|..]; cbn [cast];
+          eexists _, st; auto.
   Qed.
 
   (* ---------------- one row: items left to right ---------------- *)
@@ -377,19 +474,53 @@ Section Lin.
     destruct Hv as [v ->]. apply c20_keys_set.
   Qed.
 
+  Lemma run_set_acc : forall m cur acc (k e : expr Q) name out m',
+    run_set data m cur acc k e name = (Ok out, m') -> out = acc.
+  Proof.
+    intros m cur acc k e name out m' H. unfold run_set in H.
+    destruct (let! kv := arg (env_pure data) cur k in
+              let! ev := arg (env_rd data m) cur e in set_var_func m [kv; ev]) as [[x m1]| | |] eqn:Hs;
+      cbn [cast] in H; try (inversion H; fail).
+    assert (x = ROmit).
+    { destruct (arg (env_pure data) cur k); cbn [bind] in Hs; try discriminate Hs.
+      destruct (arg (env_rd data m) cur e); cbn [bind] in Hs; try discriminate Hs.
+      eapply set_var_func_omit; exact Hs. }
+    subst x. cbn [sel_store] in H. inversion H. reflexivity.
+  Qed.
+
+  (* the item's name does not matter to a SETVAR: what it returns is the Ommit marker *)
+  Lemma run_set_name : forall m cur acc (k e : expr Q) name name',
+    run_set data m cur acc k e name = run_set data m cur acc k e name'.
+  Proof.
+    intros m cur acc k e name name'. unfold run_set.
+    destruct (let! kv := arg (env_pure data) cur k in
+              let! ev := arg (env_rd data m) cur e in set_var_func m [kv; ev]) as [[x m1]| | |] eqn:Hs;
+      try reflexivity.
+    assert (x = ROmit).
+    { destruct (arg (env_pure data) cur k); cbn [bind] in Hs; try discriminate Hs.
+      destruct (arg (env_rd data m) cur e); cbn [bind] in Hs; try discriminate Hs.
+      eapply set_var_func_omit; exact Hs. }
+    subst x. reflexivity.
+  Qed.
+
+  Lemma run_pure_keys : forall cur acc (e : expr Q) name out,
+    run_pure data cur acc e name = Ok out ->
+    forall n, In n (keys out) <-> n = name \/ In n (keys acc).
+  Proof.
+    intros cur acc e name out H. unfold run_pure in H.
+    destruct (eval (env_pure data) cur e) as [x| | |] eqn:He; cbn [bind] in H; try discriminate H.
+    assert (Hx : x <> ROmit) by (intro; subst x; exact (env_pure_no_omit _ _ He)).
+    exact (sel_store_keys _ _ _ _ _ Hx H).
+  Qed.
+
+  (* the key set after one item: what was there, plus the column the item produces on this row *)
   Lemma item_keys : forall (it : item) m cur acc out m',
     run_item data m cur acc it = (Ok out, m') ->
-    forall n, In n (keys out) <-> In n (keys acc) \/ In n (item_names [it]).
+    forall n, In n (keys out) <-> In n (keys acc) \/ In n (item_cols data m cur it).
   Proof.
-    intros it m cur acc out m' H n. destruct it as [k e|k name|e name]; cbn [run_item item_names] in *.
-    - destruct (let! kv := arg (env_pure data) cur k in
-                let! ev := arg (env_rd data m) cur e in set_var_func m [kv; ev]) as [[x m1]| | |] eqn:Hs;
-        cbn [cast] in H; try (inversion H; fail).
-      assert (x = ROmit).
-      { destruct (arg (env_pure data) cur k); cbn [bind] in Hs; try discriminate Hs.
-        destruct (arg (env_rd data m) cur e); cbn [bind] in Hs; try discriminate Hs.
-        eapply set_var_func_omit; exact Hs. }
-      subst x. cbn [sel_store] in H. inversion H. subst. cbn [In]. intuition.
+    intros it m cur acc out m' H n.
+    destruct it as [k e|k name|e name|whens els name]; cbn [run_item item_cols] in *.
+    - rewrite (run_set_acc _ _ _ _ _ _ _ _ H). cbn [In]. intuition.
     - inversion H as [[H1 H2]]. clear H.
       destruct (arg (env_pure data) cur k) as [kv| | |]; cbn [bind] in H1; try discriminate H1.
       unfold get_var_func in H1. destruct (guard 1 [kv]); cbn [bind] in H1; try discriminate H1.
@@ -397,38 +528,218 @@ Section Lin.
       assert (Hx : RVal (map_get ks m) <> ROmit) by discriminate.
       rewrite (sel_store_keys _ _ _ _ _ Hx H1). cbn [In]. intuition.
     - inversion H as [[H1 H2]]. clear H.
-      destruct (eval (env_pure data) cur e) as [x| | |] eqn:He; cbn [bind] in H1; try discriminate H1.
-      assert (Hx : x <> ROmit) by (intro; subst x; exact (env_pure_no_omit _ _ He)).
-      rewrite (sel_store_keys _ _ _ _ _ Hx H1). cbn [In]. intuition.
+      rewrite (run_pure_keys _ _ _ _ _ H1). cbn [In]. intuition.
+    - destruct (pick data m cur whens els) as [[[e|k e]|]| | |]; cbn [cast run_branch] in H;
+        try (inversion H; fail).
+      + inversion H as [[H1 H2]]. rewrite (run_pure_keys _ _ _ _ _ H1). cbn [In]. intuition.
+      + rewrite (run_set_acc _ _ _ _ _ _ _ _ H). cbn [In]. intuition.
+      + assert (H1 : run_pure data cur acc (@ENull Q) name = Ok out) by (inversion H; reflexivity).
+        rewrite (run_pure_keys _ _ _ _ _ H1). cbn [In]. intuition.
   Qed.
 
-  (* the key set of an output row: what was there, plus the names of the items that are not SETVARs *)
+  (* the map an item leaves does not depend on the output row under construction *)
+  Lemma run_item_store_acc : forall (it : item) m cur acc acc',
+    snd (run_item data m cur acc it) = snd (run_item data m cur acc' it).
+  Proof.
+    assert (Hs : forall m cur acc acc' (k e : expr Q) name,
+               snd (run_set data m cur acc k e name) = snd (run_set data m cur acc' k e name)).
+    { intros m cur acc acc' k e name. unfold run_set.
+      destruct (let! kv := arg (env_pure data) cur k in
+                let! ev := arg (env_rd data m) cur e in set_var_func m [kv; ev]) as [[x m1]| | |];
+        reflexivity. }
+    intros it m cur acc acc'. destruct it as [k e|k name|e name|whens els name]; cbn [run_item];
+      try reflexivity.
+    - apply Hs.
+    - destruct (pick data m cur whens els) as [[[e|k e]|]| | |]; cbn [run_branch]; try reflexivity.
+      apply Hs.
+  Qed.
+
+  (* the key set of an output row: what was there, plus the columns the items produce on this row
+     (every item but the SETVARs and the CASE items that take a SETVAR branch) *)
   Theorem setvar_no_column : forall (items : list item) m cur acc out m',
     run_row data m cur items acc = (Ok out, m') ->
-    forall n, In n (keys out) <-> In n (keys acc) \/ In n (item_names items).
+    forall n, In n (keys out) <-> In n (keys acc) \/ In n (row_cols data m cur items).
   Proof.
     induction items as [|it items IH]; intros m cur acc out m' H n.
-    - cbn [run_row] in H. inversion H. subst. cbn [item_names In]. intuition.
+    - cbn [run_row] in H. inversion H. subst. cbn [row_cols In]. intuition.
     - cbn [run_row] in H.
       destruct (run_item data m cur acc it) as [[acc1| | |] m1] eqn:Hit; try (inversion H; fail).
       rewrite (IH _ _ _ _ _ H). rewrite (item_keys _ _ _ _ _ _ Hit).
-      assert (Hn : In n (item_names (it :: items)) <-> In n (item_names [it]) \/ In n (item_names items)).
-      { destruct it; cbn [item_names In]; intuition. }
-      rewrite Hn. intuition.
+      cbn [row_cols]. rewrite in_app_iff.
+      rewrite (run_item_store_acc it m cur [] acc). rewrite Hit. cbn [snd]. intuition.
   Qed.
 
   Theorem setvar_no_column_rows : forall rows (items : list item) m outs m',
     run_rows data m items rows = (Ok outs, m') ->
-    Forall (fun out => forall n, In n (keys out) <-> In n (item_names items)) outs.
+    Forall2 (fun out cols => forall n, In n (keys out) <-> In n cols)
+            outs (rows_cols data m items rows).
   Proof.
     induction rows as [|cur rows IH]; intros items m outs m' H.
     - cbn [run_rows] in H. inversion H. constructor.
     - cbn [run_rows] in H.
       destruct (run_row data m cur items []) as [[o| | |] m1] eqn:Hr; cbn [cast] in H; try (inversion H; fail).
       destruct (run_rows data m1 items rows) as [[os| | |] m2] eqn:Hrs; try (inversion H; fail).
-      inversion H. subst. constructor.
+      inversion H. subst. cbn [rows_cols]. rewrite Hr. cbn [snd]. constructor.
       + intros n. rewrite (setvar_no_column _ _ _ _ _ _ Hr n). cbn [keys map In]. intuition.
       + eapply IH. exact Hrs.
+  Qed.
+
+  (* no CASE item: the columns are the same on every row, whatever the map (the statements as they
+     were before CASE items existed) *)
+  Lemma row_cols_case_free : forall (items : list item) m cur,
+    case_free items -> row_cols data m cur items = item_names items.
+  Proof.
+    induction items as [|it items IH]; intros m cur Hc; [reflexivity|].
+    destruct it as [k e|k name|e name|whens els name]; cbn [case_free] in Hc; [..|contradiction];
+      cbn [row_cols item_cols item_names app]; rewrite (IH _ _ Hc); reflexivity.
+  Qed.
+
+  (* whatever the branches taken, no column other than the items' names appears *)
+  Lemma row_cols_names : forall (items : list item) m cur n,
+    In n (row_cols data m cur items) -> In n (item_names items).
+  Proof.
+    induction items as [|it items IH]; intros m cur n H; [exact H|].
+    cbn [row_cols] in H. apply in_app_or in H. destruct H as [H|H].
+    - destruct it as [k e|k name|e name|whens els name]; cbn [item_cols item_names] in *.
+      + destruct H.
+      + destruct H as [H|[]]. left. exact H.
+      + destruct H as [H|[]]. left. exact H.
+      + destruct (pick data m cur whens els) as [[[e|k e]|]| | |]; cbn [In] in H;
+          try (destruct H as [H|[]]; left; exact H). destruct H.
+    - apply IH in H. destruct it; cbn [item_names In]; auto.
+  Qed.
+
+  Theorem setvar_no_column_static : forall (items : list item) m cur acc out m',
+    case_free items ->
+    run_row data m cur items acc = (Ok out, m') ->
+    forall n, In n (keys out) <-> In n (keys acc) \/ In n (item_names items).
+  Proof.
+    intros items m cur acc out m' Hc H n.
+    rewrite (setvar_no_column _ _ _ _ _ _ H n). rewrite (row_cols_case_free _ _ _ Hc). reflexivity.
+  Qed.
+
+  Theorem setvar_no_foreign_column : forall (items : list item) m cur acc out m',
+    run_row data m cur items acc = (Ok out, m') ->
+    forall n, In n (keys out) -> In n (keys acc) \/ In n (item_names items).
+  Proof.
+    intros items m cur acc out m' H n Hn.
+    apply (setvar_no_column _ _ _ _ _ _ H n) in Hn. destruct Hn as [Hn|Hn]; [left; exact Hn|].
+    right. eapply row_cols_names. exact Hn.
+  Qed.
+
+  Theorem setvar_no_column_rows_static : forall rows (items : list item) m outs m',
+    case_free items ->
+    run_rows data m items rows = (Ok outs, m') ->
+    Forall (fun out => forall n, In n (keys out) <-> In n (item_names items)) outs.
+  Proof.
+    induction rows as [|cur rows IH]; intros items m outs m' Hc H.
+    - cbn [run_rows] in H. inversion H. constructor.
+    - cbn [run_rows] in H.
+      destruct (run_row data m cur items []) as [[o| | |] m1] eqn:Hr; cbn [cast] in H; try (inversion H; fail).
+      destruct (run_rows data m1 items rows) as [[os| | |] m2] eqn:Hrs; try (inversion H; fail).
+      inversion H. subst. constructor.
+      + intros n. rewrite (setvar_no_column_static _ _ _ _ _ _ Hc Hr n). cbn [keys map In]. intuition.
+      + eapply IH; [exact Hc|exact Hrs].
+  Qed.
+
+  (* ---------------- CASE items: the branch taken decides ---------------- *)
+
+  Theorem pick_nil : forall m cur (els : option (branch Q)), pick data m cur [] els = Ok els.
+  Proof. reflexivity. Qed.
+
+  Theorem pick_true : forall m cur (c : expr Q) b ws els,
+    eval (env_rd data m) cur c = Ok (RVal (VBool true)) ->
+    pick data m cur ((c, b) :: ws) els = Ok (Some b).
+  Proof. intros m cur c b ws els H. cbn [pick]. rewrite H. reflexivity. Qed.
+
+  Theorem pick_false : forall m cur (c : expr Q) b ws els,
+    eval (env_rd data m) cur c = Ok (RVal (VBool false)) ->
+    pick data m cur ((c, b) :: ws) els = pick data m cur ws els.
+  Proof. intros m cur c b ws els H. cbn [pick]. rewrite H. reflexivity. Qed.
+
+  (* (a) a CASE item whose taken branch is a call-free expression IS the pure item  e AS name  on
+     that row; the map is left alone *)
+  Theorem case_takes_expr : forall m cur acc whens els name (e : expr Q),
+    pick data m cur whens els = Ok (Some (BExpr e)) ->
+    run_item data m cur acc (VCase whens els name) = run_item data m cur acc (VPure e name) /\
+    snd (run_item data m cur acc (VCase whens els name)) = m.
+  Proof.
+    intros m cur acc whens els name e H. cbn [run_item]. rewrite H. cbn [run_branch snd]. auto.
+  Qed.
+
+  (* (b) a CASE item whose taken branch is SETVAR(k, v) IS the item SETVAR(k, v) on that row: same
+     outcome, same map afterwards; and when it succeeds the output row is untouched (no column) *)
+  Theorem case_takes_set : forall m cur acc whens els name (k v : expr Q),
+    pick data m cur whens els = Ok (Some (BSet k v)) ->
+    run_item data m cur acc (VCase whens els name) = run_item data m cur acc (VSet k v) /\
+    (forall out m', run_item data m cur acc (VCase whens els name) = (Ok out, m') -> out = acc).
+  Proof.
+    intros m cur acc whens els name k v H. cbn [run_item]. rewrite H. cbn [run_branch].
+    split; [apply run_set_name|]. intros out m' Hr. eapply run_set_acc. exact Hr.
+  Qed.
+
+  (* no condition holds and there is no ELSE: NULL under the item's name, the map is left alone *)
+  Theorem case_takes_nothing : forall m cur acc (whens : list (expr Q * branch Q)) name,
+    pick data m cur whens (@None (branch Q)) = Ok None ->
+    run_item data m cur acc (VCase whens None name) = (Ok (obj_set name VNull acc), m).
+  Proof. intros m cur acc whens name H. cbn [run_item]. rewrite H. reflexivity. Qed.
+
+  (* a condition that fails, or is not a truth value: the item fails, the map is left alone *)
+  Theorem case_cond_fails : forall m cur acc (whens : list (expr Q * branch Q)) els name,
+    is_ok (pick data m cur whens els) = false ->
+    is_ok (fst (run_item data m cur acc (VCase whens els name))) = false /\
+    snd (run_item data m cur acc (VCase whens els name)) = m.
+  Proof.
+    intros m cur acc whens els name H. cbn [run_item].
+    destruct (pick data m cur whens els); [discriminate H|..]; split; reflexivity.
+  Qed.
+
+  (* the store effect of SETVAR(k, v), as an item or as the branch a CASE item takes *)
+  Theorem setvar_effect : forall st cur acc (k v : expr Q) kv ks vv,
+    arg (env_pure data) cur k = Ok kv -> key_of kv = Ok ks ->
+    arg (env_rd data (Some st)) cur v = Ok vv ->
+    run_item data (Some st) cur acc (VSet k v) = (Ok acc, Some (obj_set ks vv st)).
+  Proof.
+    intros st cur acc k v kv ks vv Hk Hks Hv. cbn [run_item]. unfold run_set.
+    rewrite Hk. cbn [bind]. rewrite Hv. cbn [bind].
+    unfold set_var_func, guard. cbn [List.length Nat.eqb bind]. rewrite Hks. reflexivity.
+  Qed.
+
+  Theorem case_set_effect : forall st cur acc whens els name (k v : expr Q) kv ks vv,
+    pick data (Some st) cur whens els = Ok (Some (BSet k v)) ->
+    arg (env_pure data) cur k = Ok kv -> key_of kv = Ok ks ->
+    arg (env_rd data (Some st)) cur v = Ok vv ->
+    run_item data (Some st) cur acc (VCase whens els name) = (Ok acc, Some (obj_set ks vv st)).
+  Proof.
+    intros st cur acc whens els name k v kv ks vv Hp Hk Hks Hv.
+    rewrite (proj1 (case_takes_set _ _ _ _ _ _ _ _ Hp)). eapply setvar_effect; eassumption.
+  Qed.
+
+  (* the two-armed forms, read off the condition *)
+  Theorem case_then_set : forall m cur acc (c k v e : expr Q) name,
+    (eval (env_rd data m) cur c = Ok (RVal (VBool true)) ->
+     run_item data m cur acc (VCase [(c, BSet k v)] (Some (BExpr e)) name) =
+     run_item data m cur acc (VSet k v)) /\
+    (eval (env_rd data m) cur c = Ok (RVal (VBool false)) ->
+     run_item data m cur acc (VCase [(c, BSet k v)] (Some (BExpr e)) name) =
+     run_item data m cur acc (VPure e name)).
+  Proof.
+    intros m cur acc c k v e name. split; intros H.
+    - apply case_takes_set. apply pick_true. exact H.
+    - apply case_takes_expr. rewrite (pick_false _ _ _ _ _ _ H). reflexivity.
+  Qed.
+
+  Theorem case_else_set : forall m cur acc (c k v e : expr Q) name,
+    (eval (env_rd data m) cur c = Ok (RVal (VBool true)) ->
+     run_item data m cur acc (VCase [(c, BExpr e)] (Some (BSet k v)) name) =
+     run_item data m cur acc (VPure e name)) /\
+    (eval (env_rd data m) cur c = Ok (RVal (VBool false)) ->
+     run_item data m cur acc (VCase [(c, BExpr e)] (Some (BSet k v)) name) =
+     run_item data m cur acc (VSet k v)).
+  Proof.
+    intros m cur acc c k v e name. split; intros H.
+    - apply case_takes_expr. apply pick_true. exact H.
+    - apply case_takes_set. rewrite (pick_false _ _ _ _ _ _ H). reflexivity.
   Qed.
 
   (* ---------------- concrete read-after-write and unset reads ---------------- *)
@@ -442,7 +753,7 @@ Section Lin.
     (Ok [(name, v)], Some (obj_set k v st)).
   Proof.
     intros st cur k e name v He.
-    cbn [run_row run_item]. rewrite !arg_str. cbn [bind]. rewrite He. cbn [bind].
+    cbn [run_row run_item]. unfold run_set. rewrite !arg_str. cbn [bind]. rewrite He. cbn [bind].
     unfold set_var_func, get_var_func, guard, key_of, fmt_res.
     cbn [List.length Nat.eqb bind fmt_value map_put sel_store map_get value_of].
     rewrite c20_lookup_set_same. reflexivity.
@@ -462,21 +773,35 @@ Section Lin.
 
   Lemma run_item_nil : forall (it : item) cur acc, snd (run_item data None cur acc it) = None.
   Proof.
-    intros it cur acc. destruct it as [k e|k name|e name]; cbn [run_item]; try reflexivity.
+    assert (Hs : forall cur acc (k e : expr Q) name, snd (run_set data None cur acc k e name) = None).
+    { intros cur acc k e name. unfold run_set.
+      destruct (arg (env_pure data) cur k); cbn [bind]; try reflexivity.
+      destruct (arg (env_rd data None) cur e); cbn [bind]; try reflexivity.
+      unfold set_var_func. destruct (guard 2 [a; a0]); cbn [bind]; try reflexivity.
+      destruct (key_of a); reflexivity. }
+    intros it cur acc. destruct it as [k e|k name|e name|whens els name]; cbn [run_item]; try reflexivity.
+    - apply Hs.
+    - destruct (pick data None cur whens els) as [[[e|k e]|]| | |]; cbn [run_branch]; try reflexivity.
+      apply Hs.
+  Qed.
+
+  Theorem setvar_nil_map_fails : forall cur acc (k e : expr Q),
+    is_ok (fst (run_item data None cur acc (VSet k e))) = false.
+  Proof.
+    intros cur acc k e. cbn [run_item]. unfold run_set.
     destruct (arg (env_pure data) cur k); cbn [bind]; try reflexivity.
     destruct (arg (env_rd data None) cur e); cbn [bind]; try reflexivity.
     unfold set_var_func. destruct (guard 2 [a; a0]); cbn [bind]; try reflexivity.
     destruct (key_of a); reflexivity.
   Qed.
 
-  Theorem setvar_nil_map_fails : forall cur acc (k e : expr Q),
-    is_ok (fst (run_item data None cur acc (VSet k e))) = false.
+  (* the same for a SETVAR reached through a CASE item *)
+  Theorem case_set_nil_map_fails : forall cur acc whens els name (k e : expr Q),
+    pick data None cur whens els = Ok (Some (BSet k e)) ->
+    is_ok (fst (run_item data None cur acc (VCase whens els name))) = false.
   Proof.
-    intros cur acc k e. cbn [run_item].
-    destruct (arg (env_pure data) cur k); cbn [bind]; try reflexivity.
-    destruct (arg (env_rd data None) cur e); cbn [bind]; try reflexivity.
-    unfold set_var_func. destruct (guard 2 [a; a0]); cbn [bind]; try reflexivity.
-    destruct (key_of a); reflexivity.
+    intros cur acc whens els name k e H.
+    rewrite (proj1 (case_takes_set _ _ _ _ _ _ _ _ H)). apply setvar_nil_map_fails.
   Qed.
 
   (* exec()'s recover frame: no panic escapes, whatever the map *)
